@@ -74,6 +74,7 @@ func init() {
 		vrtPkg + "Freeze":         extVrtFreeze,
 		vrtPkg + "Thaw":           func(fr *frame, a []value) value { fr.i.frozen, fr.i.frozenMaps = nil, nil; return nil },
 		vrtPkg + "FrozenWrites":   extVrtFrozenWrites,
+		vrtPkg + "LocksetViolations": extVrtLocksetViolations,
 		vrtPkg + "Concretize":     func(fr *frame, a []value) value { return fr.i.concretise(a[0], "vrt.Concretize") },
 		vrtPkg + "ConcretizeByte": func(fr *frame, a []value) value { return fr.i.concretise(a[0], "vrt.ConcretizeByte") },
 		vrtPkg + "Fmod":           extFmod,
@@ -424,13 +425,69 @@ func (i *interpreter) checkFrozenWrite(addr *value) {
 	if i.frozen[addr] {
 		site := "?"
 		i.frozenWrites = append(i.frozenWrites, site)
+		i.locksetAccess(addr, true)
 	}
 }
 
 func (i *interpreter) checkFrozenMap(m *omap) {
 	if i.frozenMaps[m] {
 		i.frozenWrites = append(i.frozenWrites, "map")
+		i.locksetAccess(m, true)
 	}
+}
+
+// ---- lock-set discipline on frozen (shared) state, after Eraser: for every shared
+// location that is WRITTEN while frozen, the locks held at all of its accesses (reads
+// and writes) must have a common member.
+
+type lockAcc struct {
+	written bool
+	locks   map[*value]bool // intersection of the lock-sets of all accesses so far
+}
+
+func (i *interpreter) locksetAccess(loc interface{}, write bool) {
+	if i.lockAccs == nil {
+		i.lockAccs = map[interface{}]*lockAcc{}
+	}
+	a := i.lockAccs[loc]
+	if a == nil {
+		a = &lockAcc{locks: map[*value]bool{}}
+		for k := range i.held {
+			a.locks[k] = true
+		}
+		i.lockAccs[loc] = a
+	} else {
+		for k := range a.locks {
+			if _, ok := i.held[k]; !ok {
+				delete(a.locks, k)
+			}
+		}
+	}
+	if write {
+		a.written = true
+	}
+}
+
+func (i *interpreter) noteFrozenRead(addr *value) {
+	if i.frozen[addr] {
+		i.locksetAccess(addr, false)
+	}
+}
+
+func (i *interpreter) noteFrozenMapRead(m *omap) {
+	if i.frozenMaps[m] {
+		i.locksetAccess(m, false)
+	}
+}
+
+func extVrtLocksetViolations(fr *frame, a []value) value {
+	n := 0
+	for _, acc := range fr.i.lockAccs {
+		if acc.written && len(acc.locks) == 0 {
+			n++
+		}
+	}
+	return n
 }
 
 func extVrtFrozenWrites(fr *frame, a []value) value { return len(fr.i.frozenWrites) }
